@@ -20,6 +20,8 @@ func hasTorsion(pairName string) bool {
 	return pairName == "bls12-377>bw6-761" || pairName == "bls24-315>bw6-633"
 }
 
+func hasG2Torsion(pairName string) bool { return pairName == "bls12-377>bw6-761" }
+
 var (
 	torsionMu  sync.Mutex
 	torsion377 = map[int64]bls12377.G1Affine{}
@@ -106,9 +108,64 @@ func getTorsion315(k int64) bls24315.G1Affine {
 	}
 }
 
-// addTorsion adds a cofactor-torsion point to the addressable G1 point dst.
+var torsion377G2 = map[int64]bls12377.G2Affine{}
+
+// getTorsion377G2: a point of the twist E'(Fp2) outside G2: [r]Q for a twist point Q found by
+// trial (b' = y² - x³ is read off the G2 generator).
+func getTorsion377G2(k int64) bls12377.G2Affine {
+	torsionMu.Lock()
+	defer torsionMu.Unlock()
+	if t, ok := torsion377G2[k]; ok {
+		return t
+	}
+	_, _, _, g2 := bls12377.Generators()
+	var b, x3 bls12377.E2
+	b.Square(&g2.Y)
+	x3.Square(&g2.X).Mul(&x3, &g2.X)
+	b.Sub(&b, &x3)
+	for i := uint64(2 + 97*k); ; i++ {
+		var x, y, rhs bls12377.E2
+		x.A0.SetUint64(i)
+		x.A1.SetUint64(1)
+		rhs.Square(&x).Mul(&rhs, &x).Add(&rhs, &b)
+		if rhs.Legendre() != 1 {
+			continue
+		}
+		y.Sqrt(&rhs)
+		q := bls12377.G2Affine{X: x, Y: y}
+		if !q.IsOnCurve() {
+			continue
+		}
+		var acc, base bls12377.G2Jac
+		base.FromAffine(&q)
+		r := fr377.Modulus()
+		for j := r.BitLen() - 1; j >= 0; j-- {
+			acc.DoubleAssign()
+			if r.Bit(j) == 1 {
+				acc.AddAssign(&base)
+			}
+		}
+		var t bls12377.G2Affine
+		t.FromJacobian(&acc)
+		if t.IsInfinity() || !t.IsOnCurve() || t.IsInSubGroup() {
+			continue
+		}
+		torsion377G2[k] = t
+		return t
+	}
+}
+
+// addTorsion adds a cofactor-torsion point to the addressable G1 (or bls12-377 G2) point dst.
 func addTorsion(dst reflect.Value, k int64) bool {
 	switch p := dst.Addr().Interface().(type) {
+	case *bls12377.G2Affine:
+		t := getTorsion377G2(k)
+		var a, b bls12377.G2Jac
+		a.FromAffine(p)
+		b.FromAffine(&t)
+		a.AddAssign(&b)
+		p.FromJacobian(&a)
+		return !p.IsInSubGroup() && p.IsOnCurve()
 	case *bls12377.G1Affine:
 		t := getTorsion377(k)
 		var a, b bls12377.G1Jac
